@@ -8,6 +8,7 @@ import (
 	"reflect"
 	"sort"
 	"strings"
+	"sync"
 	"time"
 
 	"github.com/element-of-surprise/coercion/workflow"
@@ -37,9 +38,14 @@ type fieldInfo struct {
 	skipScan bool // Action.register
 }
 
-var fieldCache = map[reflect.Type][]fieldInfo{}
+var (
+	fieldCache   = map[reflect.Type][]fieldInfo{}
+	fieldCacheMu sync.Mutex // engine-run originals execute plugins on other goroutines while the check may be walking
+)
 
 func fieldsOf(t reflect.Type) []fieldInfo {
+	fieldCacheMu.Lock()
+	defer fieldCacheMu.Unlock()
 	if fi, ok := fieldCache[t]; ok {
 		return fi
 	}
